@@ -20,6 +20,7 @@ DECIDED = [
     "R-C09-PAUSE (round 5): every guarded poll step of the Redis background consume task catches Exception (redis-py errors are not builtin ConnectionErrors): the task nobody awaits cannot die of one hiccup; R-C09-OWN: _forget_topic tests and deletes the set it discarded from",
     "R-C09-PAIR / R-C09-PAUSE (round 6 + sweep): explicit `await consumer.consume()` loops are receive events for the slot pairing; RabbitMQ pause / unpause move the prefetch window, a paused consumer bounces, re-subscription after a server-side cancel",
     "R-C09-AWAITED: in the files this property is anchored in, no bare statement calls a coroutine function (the operation would never run)",
+    "R-C09-PAUSE (Redis sweep rules): Redis pause lock protocol, gate before every take, poll task created and kept",
 ]
 NOT_DECIDED = ["'makes progress / every job eventually executed' (liveness)", "lost wake-ups inside asyncio primitives"]
 ASSUMPTIONS = ["asyncio.Semaphore counts permits correctly; a done-callback runs exactly once when its task ends (normally, by exception or cancellation)"]
@@ -29,6 +30,9 @@ def run(ctx: Ctx) -> None:
     from .shared import every_operation_awaited
 
     every_operation_awaited(ctx, "R-C09-AWAITED")  # in the files this property is anchored in, no asynchronous operation is created and dropped
+    from .brokers import redis_lifecycle
+
+    redis_lifecycle(ctx, "R-C09-PAUSE")  # Redis consumer: poll task, pause lock protocol, gate, hand-over
     from .brokers import rabbit_delivery_details, rabbit_delivery_table, rabbit_lifecycle
 
     rabbit_lifecycle(ctx, "R-C09-PAUSE")  # RabbitMQ pause / unpause really move the prefetch window; a started consumer is marked consuming
